@@ -146,6 +146,19 @@ fn gen_cfg(name: &str) -> Option<(generic::GenCfg, &'static str)> {
             c.p_interrupt = 40;
             "C07"
         }
+        "c08" => {
+            c.name = "c08";
+            c.kinds = vec![ReadPool, ReadPool, MultishotRead, RecvPool, MultishotRecv, Read, Write];
+            c.sq_sizes = vec![2, 4, 8];
+            c.w_drop = 70;
+            c.w_drop_results = 160;
+            c.w_complete = 300;
+            c.max_ops = 6;
+            c.steps = 100;
+            c.p_error = 60;
+            c.p_interrupt = 40;
+            "C08"
+        }
         "c09" => {
             c.name = "c09";
             c.p_interrupt = 550;
@@ -178,6 +191,22 @@ pub fn run(name: &str, args: &Args) -> Option<Report> {
         "c18" => c18::run(args.seed, args.start, args.iters, &mut rep),
         "c12" => c12::run(args.seed, args.start, args.iters, &mut rep, false),
         "c10" => c10::run(args.seed, args.start, args.iters, &mut rep),
+        "c08wrap" => {
+            for i in args.start..args.start + args.iters {
+                let cycles: u64 = args.param("cycles").and_then(|c| c.parse().ok()).unwrap_or(70_000);
+                guarded(&mut rep, name, "C08", args.seed, i, |rep| mt::c08_wrap_marathon(args.seed, i, cycles, rep));
+            }
+        }
+        "c08mt" => {
+            for i in args.start..args.start + args.iters {
+                guarded(&mut rep, name, "C08", args.seed, i, |rep| mt::c08_release_schedule(args.seed, i, rep));
+            }
+        }
+        "c11" => {
+            for i in args.start..args.start + args.iters {
+                guarded(&mut rep, name, "C11", args.seed, i, |rep| mt::c11_schedule(args.seed, i, rep));
+            }
+        }
         "c04" => {
             if args.start == 0 {
                 guarded(&mut rep, name, "C04", args.seed, 0, |rep| mt::c04_wrap_sweep(args.seed, rep));
